@@ -1,2 +1,441 @@
--- line-protocol driver stub (Intern); replaced when the model exists
-def main : IO Unit := IO.println "stub"
+/-
+Line-protocol driver over the interner model (C15).  One output line per input line.
+
+Sequential cases (the LTS run one call at a time, cross-checked with the atomic spec `aStep`):
+  S begin SHARDS NTASKS            -> ok
+  S intern T TY D                  -> ret A new|hit data=D'
+  S get T TY KEY                   -> ret A data=D' | ret none
+  S clone T I | S drop T I         -> ok
+  S vacuum                         -> ok          (every lock, every slot of the small domain)
+  S check                          -> held 0:[a,b] 1:[…]
+  S end                            -> ok
+Thread traces (linearisability of the call/return log against `aStep`, slot by slot):
+  T begin …                        -> ok
+  T ev SEQ THREAD call intern TY D | call get TY KEY | call clone TY A | call drop TY A   -> ok
+  T ev SEQ THREAD ret new A D' | ret hit A D' | ret some A D' | ret none | ret ok         -> ok
+  T end                            -> lin-ok | lin-fail … | lin-budget
+Encode / decode:
+  X enc TERM…                      -> hex bytes
+  X dec live|fresh|dropped HEX TERM…  -> dec-ok TERM… share=c0,c1,…   | dec-fail …
+TERM = (TY LABEL HASH128HEX TERM…).   The content hash of data D is D % 4 (the harness's test types hash
+only `key = D % 4`); shard index = hash % SHARDS.
+-/
+import QbiceVerif.Model.Interner
+import Std.Data.HashSet
+open QbiceVerif.Interner
+
+def cfgOf (shards : Nat) : Cfg := ⟨fun d => d % 4, fun h => h % (if shards = 0 then 1 else shards)⟩
+
+def listStr (xs : List Nat) : String := "[" ++ ",".intercalate (xs.map toString) ++ "]"
+
+/-! ### sequential mode -/
+structure SeqSt where
+  c : Cfg
+  shards : Nat
+  ntasks : Nat
+  s : State
+  a : AState
+
+def spawnN (c : Cfg) : Nat → State × AState → Option (State × AState)
+  | 0, p => some p
+  | n + 1, (s, a) =>
+    match step c s .spawn, aStep c a .spawn with
+    | some s', some (a', _) => spawnN c n (s', a')
+    | _, _ => none
+
+def absAgree (s : State) (a : AState) : Bool :=
+  s.abs.held == a.held && s.abs.allocs == a.allocs
+
+def seqCall (st : SeqSt) (t : Nat) (call : Act) (aop : AOp) : Option SeqSt × String :=
+  let before := st.s.allocs.length
+  match runCall st.c st.s t call, aStep st.c st.a aop with
+  | .ok s', some (a', r) =>
+    let lr := match s'.tasks[t]? with | some tk => tk.ret | none => none
+    if lr != r || !(absAgree s' a') then (some { st with s := s', a := a' }, "model-internal-mismatch")
+    else
+      let txt := match r with
+        | none => "ret none"
+        | some x =>
+          let d := match s'.allocs[x]? with | some v => toString v.data | none => "?"
+          match call with
+          | .callIntern _ => s!"ret {x} {if x == before then "new" else "hit"} data={d}"
+          | _ => s!"ret {x} data={d}"
+      (some { st with s := s', a := a' }, txt)
+  | .error e, _ => (none, s!"model-error {repr e}")
+  | _, none => (none, "model-error spec-not-enabled")
+
+def seqLocal (st : SeqSt) (t : Nat) (act : Act) (aop : AOp) : Option SeqSt × String :=
+  match step st.c st.s (.act t act), aStep st.c st.a aop with
+  | some s', some (a', _) =>
+    if absAgree s' a' then (some { st with s := s', a := a' }, "ok") else (some { st with s := s', a := a' }, "model-internal-mismatch")
+  | _, _ => (none, "model-error not-enabled")
+
+def seqVacuum (st : SeqSt) : Option SeqSt × String :=
+  let vt := st.ntasks   -- the extra task spawned for vacuum
+  let locks := (List.range 3).flatMap (fun ty => (List.range st.shards).map (fun i => (⟨ty, i⟩ : LockId)))
+  let r := locks.foldl (fun (acc : Except RunErr State) l =>
+    match acc with
+    | .error e => .error e
+    | .ok s =>
+      let slots := (List.range 4).filterMap (fun h => if st.c.lockOf ⟨l.ty, h⟩ = l then some (⟨l.ty, h⟩ : Slot) else none)
+      runVacuum st.c s vt l slots) (.ok st.s)
+  match r with
+  | .ok s' => if absAgree s' st.a then (some { st with s := s' }, "ok") else (some { st with s := s' }, "model-internal-mismatch")
+  | .error e => (none, s!"model-error {repr e}")
+
+/-! ### thread traces -/
+inductive TKind
+  | internNew (a d : Nat) | internHit (a d : Nat) | getSome (a d : Nat) | getNone | clone (a : Nat) | drop (a : Nat)
+deriving Repr, Inhabited
+
+structure TOp where
+  call : Nat
+  ret : Nat
+  thread : Nat
+  ty : Nat
+  arg : Nat          -- requested data (intern) / key (get) / allocation (clone, drop)
+  kind : TKind
+deriving Repr, Inhabited
+
+structure Pending where
+  seq : Nat
+  op : String
+  ty : Nat
+  arg : Nat
+
+structure TrSt where
+  nthreads : Nat
+  pending : List (Nat × Pending)
+  ops : Array TOp
+  bad : Option String
+
+structure LinSt where
+  a : AState
+  ren : List (Nat × Nat)     -- implementation allocation -> model allocation
+
+def renGet (ren : List (Nat × Nat)) (x : Nat) : Option Nat := (ren.find? (fun p => p.1 == x)).map (·.2)
+
+/-- apply one logged call atomically to the spec; `none` = the spec cannot answer what the implementation answered -/
+def applyOp (c : Cfg) (st : LinSt) (o : TOp) : Option LinSt :=
+  match o.kind with
+  | .internNew a d =>
+    match aStep c st.a (.intern o.thread ⟨o.ty, o.arg⟩) with
+    | some (a', some m) => if m == st.a.allocs.length && d == o.arg && (renGet st.ren a).isNone then some ⟨a', (a, m) :: st.ren⟩ else none
+    | _ => none
+  | .internHit a d =>
+    match aStep c st.a (.intern o.thread ⟨o.ty, o.arg⟩) with
+    | some (a', some m) =>
+      if m < st.a.allocs.length && renGet st.ren a == some m && (a'.allocs[m]?).map (·.data) == some d then some ⟨a', st.ren⟩ else none
+    | _ => none
+  | .getSome a d =>
+    match aStep c st.a (.get o.thread ⟨o.ty, o.arg⟩) with
+    | some (a', some m) => if renGet st.ren a == some m && (a'.allocs[m]?).map (·.data) == some d then some ⟨a', st.ren⟩ else none
+    | _ => none
+  | .getNone =>
+    match aStep c st.a (.get o.thread ⟨o.ty, o.arg⟩) with
+    | some (a', none) => some ⟨a', st.ren⟩
+    | _ => none
+  | .clone a =>
+    match renGet st.ren a with
+    | some m =>
+      match (st.a.held.getD o.thread []).findIdx? (· == m) with
+      | some i => (aStep c st.a (.clone o.thread i)).map (fun r => ⟨r.1, st.ren⟩)
+      | none => none
+    | none => none
+  | .drop a =>
+    match renGet st.ren a with
+    | some m =>
+      match (st.a.held.getD o.thread []).findIdx? (· == m) with
+      | some i => (aStep c st.a (.drop o.thread i)).map (fun r => ⟨r.1, st.ren⟩)
+      | none => none
+    | none => none
+
+structure Search where
+  visited : Std.HashSet Nat
+  budget : Nat
+
+/-- Wing–Gong search with memoisation on the set of linearised calls (the spec state is a function of that
+    set up to the renaming of allocations). -/
+partial def linSearch (c : Cfg) (ops : Array TOp) (done : Nat) (ndone : Nat) (st : LinSt) (sr : Search) : Bool × Search :=
+  if ndone == ops.size then (true, sr)
+  else if sr.budget == 0 then (false, sr)
+  else if sr.visited.contains done then (false, sr)
+  else
+    let idxs := (List.range ops.size).filter (fun i => !(done.testBit i))
+    let minRet := idxs.foldl (fun m i => Nat.min m ops[i]!.ret) (ops[idxs.head!]!.ret)
+    let cands := idxs.filter (fun i => ops[i]!.call < minRet)
+    let rec go (cs : List Nat) (sr : Search) : Bool × Search :=
+      match cs with
+      | [] => (false, { sr with visited := sr.visited.insert done })
+      | i :: rest =>
+        match applyOp c st ops[i]! with
+        | none => go rest sr
+        | some st' =>
+          let (ok, sr') := linSearch c ops (done ||| (1 <<< i)) (ndone + 1) st' { sr with budget := sr.budget - 1 }
+          if ok then (true, sr') else go rest sr'
+    go cands sr
+
+def slotOfOp (allocSlot : List (Nat × (Nat × Nat))) (o : TOp) : Option (Nat × Nat) :=
+  match o.kind with
+  | .internNew _ _ | .internHit _ _ => some (o.ty, o.arg % 4)
+  | .getSome _ _ | .getNone => some (o.ty, o.arg)
+  | .clone a | .drop a => (allocSlot.find? (fun p => p.1 == a)).map (·.2)
+
+def linCheck (tr : TrSt) : String :=
+  match tr.bad with
+  | some b => s!"lin-fail malformed {b}"
+  | none =>
+    if !tr.pending.isEmpty then "lin-fail call-without-return" else
+    let c := cfgOf 4
+    let ops := tr.ops.qsort (fun x y => x.call < y.call)
+    let allocSlot : List (Nat × (Nat × Nat)) := ops.toList.filterMap (fun o =>
+      match o.kind with
+      | .internNew a d | .internHit a d | .getSome a d => some (a, (o.ty, d % 4))
+      | _ => none)
+    match ops.toList.find? (fun o => (slotOfOp allocSlot o).isNone) with
+    | some o => s!"lin-fail handle-of-unknown-allocation thread={o.thread} call={o.call}"
+    | none =>
+      let slots := (ops.toList.filterMap (slotOfOp allocSlot)).eraseDups
+      let init : Option (State × AState) := spawnN c tr.nthreads (State.init, AState.init)
+      match init with
+      | none => "lin-fail spawn"
+      | some (_, a0) =>
+        let res := slots.foldl (fun (acc : Option String) k =>
+          match acc with
+          | some e => some e
+          | none =>
+            let sub := ops.filter (fun o => slotOfOp allocSlot o == some k)
+            let (ok, sr) := linSearch c sub 0 0 ⟨a0, []⟩ ⟨{}, 300000⟩
+            if ok then none
+            else if sr.budget == 0 then some "lin-budget"
+            else some s!"lin-fail slot={k.1}:{k.2} calls={sub.size}") none
+        match res with
+        | none => "lin-ok"
+        | some e => e
+
+/-! ### encode / decode -/
+def hexVal (c : Char) : Option Nat :=
+  if '0' ≤ c ∧ c ≤ '9' then some (c.toNat - 48)
+  else if 'a' ≤ c ∧ c ≤ 'f' then some (c.toNat - 87)
+  else none
+
+def parseHexNat (s : String) : Option Nat :=
+  s.toList.foldl (fun acc ch => match acc, hexVal ch with | some n, some d => some (16 * n + d) | _, _ => none) (some 0)
+
+def unhex (s : String) : Option (List Nat) :=
+  let rec go : List Char → List Nat → Option (List Nat)
+    | [], acc => some acc.reverse
+    | [_], _ => none
+    | a :: b :: rest, acc => match hexVal a, hexVal b with
+      | some x, some y => go rest ((16 * x + y) :: acc)
+      | _, _ => none
+  if s == "-" then some [] else go s.toList []
+
+def hexChar (n : Nat) : Char := if n < 10 then Char.ofNat (48 + n) else Char.ofNat (87 + n)
+def hexOf (b : List Nat) : String :=
+  if b.isEmpty then "-" else String.ofList (b.foldr (fun x acc => hexChar (x / 16) :: hexChar (x % 16) :: acc) [])
+def hex128 (v : Nat) : String := String.ofList ((List.range 32).map (fun i => hexChar ((v >>> (4 * (31 - i))) % 16)))
+
+/-- parse `(TY LABEL HASH kids…)…` from a token list; returns terms with the hash table of all subterms -/
+partial def parseTerms (toks : List String) (tbl : List (Tm × Nat)) : Option (List Tm × List String × List (Tm × Nat)) :=
+  match toks with
+  | "(" :: ty :: label :: h :: rest =>
+    match ty.toNat?, label.toNat?, parseHexNat h with
+    | some ty, some label, some h =>
+      match parseTerms rest tbl with
+      | some (kids, ")" :: rest', tbl') =>
+        let t := Tm.node ty label kids
+        match parseTerms rest' ((t, h) :: tbl') with
+        | some (more, rest'', tbl'') => some (t :: more, rest'', tbl'')
+        | none => none
+      | _ => none
+    | _, _, _ => none
+  | _ => some ([], toks, tbl)
+
+def lexTerms (s : String) : List String :=
+  ((s.replace "(" " ( ").replace ")" " ) ").splitOn " " |>.filter (· ≠ "")
+
+def mkH (tbl : List (Tm × Nat)) : Tm → Nat := fun t =>
+  match tbl.find? (fun p => Tm.beq p.1 t) with
+  | some p => p.2
+  | none => 2 ^ 128     -- not a hash any value of the case has
+
+partial def showTm (H : Tm → Nat) : Tm → String
+  | .node ty label kids => s!"({ty} {label} {hex128 (H (.node ty label kids))}" ++ String.join (kids.map (fun k => " " ++ showTm H k)) ++ ")"
+
+def readVarint : Nat → List Nat → Option (Nat × List Nat)
+  | 0, _ => none
+  | _, [] => none
+  | fuel + 1, b :: rest =>
+    if b < 128 then some (b, rest)
+    else match readVarint fuel rest with
+      | some (v, rest') => some (b - 128 + 128 * v, rest')
+      | none => none
+
+/-- bytes → tokens (inverse of `Tok.bytes` for the harness's value types) -/
+partial def lexBytes (bs : List Nat) (acc : List Tok) : Option (List Tok) :=
+  match bs with
+  | [] => some acc.reverse
+  | ty :: 0 :: rest =>
+    if ty < 2 then
+      match rest with
+      | label :: rest' => match readVarint 10 rest' with
+        | some (n, rest'') => lexBytes rest'' (.src ty label n :: acc)
+        | none => none
+      | [] => none
+    else if ty == 2 then
+      match rest with
+      | 1 :: label :: rest' => lexBytes rest' (.src ty label 0 :: acc)
+      | _ => none
+    else if ty == 3 then
+      match rest with
+      | 1 :: ch :: rest' => match hexVal (Char.ofNat ch) with
+        | some label => lexBytes rest' (.src ty label 0 :: acc)
+        | none => none
+      | _ => none
+    else none
+  | ty :: 1 :: rest =>
+    match readVarint 10 rest with
+    | some (lo, rest') => match readVarint 10 rest' with
+      | some (hi, rest'') => lexBytes rest'' (.ref ty (lo + 2 ^ 64 * hi) :: acc)
+      | none => none
+    | none => none
+  | _ => none
+
+/-- all handle occurrences in production (post-) order -/
+partial def postOrder : Tm → List Tm
+  | .node ty label kids => kids.flatMap postOrder ++ [.node ty label kids]
+
+def classesOf (xs : List Nat) : String :=
+  let (_, out) := xs.foldl (fun (acc : List (Nat × Nat) × List Nat) a =>
+    match acc.1.find? (fun p => p.1 == a) with
+    | some p => (acc.1, acc.2 ++ [p.2])
+    | none => ((a, acc.1.length) :: acc.1, acc.2 ++ [acc.1.length])) ([], [])
+  ",".intercalate (out.map toString)
+
+def doEnc (rest : String) : String :=
+  match parseTerms (lexTerms rest) [] with
+  | some (ts, [], tbl) => hexOf (encodeBytes (mkH tbl) ts)
+  | _ => "bad-op"
+
+def doDec (mode hexs rest : String) : String :=
+  match parseTerms (lexTerms rest) [], unhex hexs with
+  | some (ts, [], tbl), some bytes =>
+    let H := mkH tbl
+    match readVarint 10 bytes with
+    | none => "dec-fail bad-length"
+    | some (n, body) =>
+      match lexBytes body [] with
+      | none => "dec-fail bad-bytes"
+      | some toks =>
+        -- `live`: the originals are alive in the interner the decoder uses
+        let d0 : DState :=
+          if mode == "live" then
+            let d1 : DState := (ts.flatMap postOrder).foldl (fun (d : DState) t => (d.intern H t).2) (⟨[], 0, []⟩ : DState)
+            { d1 with log := [] }
+          else ⟨[], 0, []⟩
+        match decList H (toks.length + n + 2) n d0 toks with
+        | .ok (out, d, []) =>
+          s!"dec-ok {" ".intercalate (out.map (showTm H))} share={classesOf (d.log.map (·.1))}"
+        | .ok (_, _, _ :: _) => "dec-fail trailing-bytes"
+        | .error e => s!"dec-fail {repr e}"
+  | _, _ => "bad-op"
+
+/-! ### main loop -/
+structure DrvSt where
+  seq : Option SeqSt := none
+  tr : Option TrSt := none
+
+def trEvent (tr : TrSt) (w : List String) : TrSt × String :=
+  match w with
+  | [seq, th, "call", op, ty, arg] =>
+    match seq.toNat?, th.toNat?, ty.toNat?, arg.toNat? with
+    | some seq, some th, some ty, some arg =>
+      if (tr.pending.find? (fun p => p.1 == th)).isSome then ({ tr with bad := some "nested-call" }, "ok")
+      else if op == "intern" || op == "get" || op == "clone" || op == "drop" then
+        ({ tr with pending := (th, ⟨seq, op, ty, arg⟩) :: tr.pending }, "ok")
+      else (tr, "bad-op")
+    | _, _, _, _ => (tr, "bad-op")
+  | seq :: th :: "ret" :: res =>
+    match seq.toNat?, th.toNat? with
+    | some seq, some th =>
+      match tr.pending.find? (fun p => p.1 == th) with
+      | none => ({ tr with bad := some "return-without-call" }, "ok")
+      | some (_, p) =>
+        let pend := tr.pending.filter (fun q => q.1 != th)
+        let kind : Option TKind :=
+          match p.op, res with
+          | "intern", ["new", a, d] => match a.toNat?, d.toNat? with | some a, some d => some (.internNew a d) | _, _ => none
+          | "intern", ["hit", a, d] => match a.toNat?, d.toNat? with | some a, some d => some (.internHit a d) | _, _ => none
+          | "get", ["some", a, d] => match a.toNat?, d.toNat? with | some a, some d => some (.getSome a d) | _, _ => none
+          | "get", ["none"] => some .getNone
+          | "clone", ["ok"] => some (.clone p.arg)
+          | "drop", ["ok"] => some (.drop p.arg)
+          | _, _ => none
+        match kind with
+        | some k => ({ tr with pending := pend, ops := tr.ops.push ⟨p.seq, seq, th, p.ty, p.arg, k⟩ }, "ok")
+        | none => (tr, "bad-op")
+    | _, _ => (tr, "bad-op")
+  | _ => (tr, "bad-op")
+
+def handle (st : DrvSt) (line : String) : DrvSt × String :=
+  let w := line.trimAscii.toString.splitOn " "
+  match w with
+  | ["S", "begin", sh, nt] =>
+    match sh.toNat?, nt.toNat? with
+    | some sh, some nt =>
+      let c := cfgOf sh
+      match spawnN c (nt + 1) (State.init, AState.init) with
+      | some (s, a) => ({ st with seq := some ⟨c, sh, nt, s, a⟩ }, "ok")
+      | none => (st, "model-error spawn")
+    | _, _ => (st, "bad-op")
+  | "S" :: rest =>
+    match st.seq with
+    | none => (st, "bad-op")
+    | some q =>
+      let upd (r : Option SeqSt × String) : DrvSt × String :=
+        match r.1 with | some q' => ({ st with seq := some q' }, r.2) | none => (st, r.2)
+      match rest.map (·.toNat?) , rest with
+      | [_, some t, some ty, some d], ["intern", _, _, _] =>
+        if t < q.ntasks then upd (seqCall q t (.callIntern ⟨ty, d⟩) (.intern t ⟨ty, d⟩)) else (st, "bad-op")
+      | [_, some t, some ty, some k], ["get", _, _, _] =>
+        if t < q.ntasks then upd (seqCall q t (.callGet ⟨ty, k⟩) (.get t ⟨ty, k⟩)) else (st, "bad-op")
+      | [_, some t, some i], ["clone", _, _] => if t < q.ntasks then upd (seqLocal q t (.clone i) (.clone t i)) else (st, "bad-op")
+      | [_, some t, some i], ["drop", _, _] => if t < q.ntasks then upd (seqLocal q t (.drop i) (.drop t i)) else (st, "bad-op")
+      | _, ["vacuum"] => upd (seqVacuum q)
+      | _, ["check"] =>
+        let parts := (List.range q.ntasks).map (fun t =>
+          s!" {t}:{listStr (match q.s.tasks[t]? with | some tk => tk.held | none => [])}")
+        (st, "held" ++ String.join parts)
+      | _, ["end"] => ({ st with seq := none }, "ok")
+      | _, _ => (st, "bad-op")
+  | "T" :: "begin" :: _ :: th :: _ =>
+    match (th.splitOn "=") with
+    | ["threads", n] => match n.toNat? with
+      | some n => ({ st with tr := some ⟨n, [], #[], none⟩ }, "ok")
+      | none => (st, "bad-op")
+    | _ => (st, "bad-op")
+  | "T" :: "ev" :: rest =>
+    match st.tr with
+    | none => (st, "bad-op")
+    | some tr => let (tr', o) := trEvent tr rest; ({ st with tr := some tr' }, o)
+  | ["T", "end"] =>
+    match st.tr with
+    | none => (st, "bad-op")
+    | some tr => ({ st with tr := none }, linCheck tr)
+  | "X" :: "enc" :: rest => (st, doEnc (" ".intercalate rest))
+  | "X" :: "dec" :: mode :: hexs :: rest =>
+    if mode == "live" || mode == "fresh" || mode == "dropped" then (st, doDec mode hexs (" ".intercalate rest)) else (st, "bad-op")
+  | _ => (st, "bad-op")
+
+partial def loop (h : IO.FS.Stream) (out : IO.FS.Stream) (st : DrvSt) : IO Unit := do
+  let line ← h.getLine
+  if line.isEmpty then return ()
+  let (st', o) := handle st line
+  out.putStrLn o
+  loop h out st'
+
+def main : IO Unit := do
+  let stdin ← IO.getStdin
+  let stdout ← IO.getStdout
+  loop stdin stdout {}
